@@ -23,6 +23,8 @@ type Level struct {
 	Length   string   `json:"length,omitempty"`
 	Patterns []string `json:"patterns,omitempty"`
 	Default  *string  `json:"default,omitempty"`
+	// FDAgain: a fraction-digits statement on this level although it is not the one written on decimal64 itself
+	FDAgain int `json:"fd_again,omitempty"`
 }
 
 // Case: base type, typedef levels from the base outwards, and the leaves (each its own final level).
@@ -299,6 +301,11 @@ func genCase(t *rapid.T) Case {
 				}
 			} else {
 				l.Range = g.subRange(sp.Ranges, c.FD, mode)
+				if c.Base == "decimal64" && g.pick(25, "fdagain") == 7 {
+					// (refused on a derived level whatever the number; on the level written on decimal64 it is the statement
+					// that is there anyway)
+					l.FDAgain = []int{c.FD, 1, 4}[g.pick(3, "fdagainv")]
+				}
 				if g.pick(30, "wrongkind") == 17 {
 					if g.pick(2, "wk") == 0 {
 						l.Length = "1..5"
@@ -400,8 +407,11 @@ func baseSpace(c Case) *vt.Space {
 }
 
 // model applies one level to a space; returns an error when the level must be refused.
-func applyLevel(sp *vt.Space, l Level, base string, fd int) (*vt.Space, error) {
+func applyLevel(sp *vt.Space, l Level, base string, fd int, derived bool) (*vt.Space, error) {
 	out := sp.Clone()
+	if l.FDAgain != 0 && derived {
+		return nil, fmt.Errorf("fraction-digits is given with decimal64 itself, not with a type derived from it")
+	}
 	if fixedBases[base] != nil {
 		if l.Range != "" || l.Length != "" || len(l.Patterns) > 0 {
 			return nil, fmt.Errorf("no restriction applies to %s", base)
@@ -441,6 +451,8 @@ func typeSpec(name string, l Level, fd int, withFD bool) *sg.TypeSpec {
 	t := &sg.TypeSpec{Name: name, Range: l.Range, Length: l.Length, Patterns: l.Patterns}
 	if withFD {
 		t.FD = fd
+	} else if l.FDAgain != 0 {
+		t.FD = l.FDAgain
 	}
 	return t
 }
@@ -522,12 +534,12 @@ func checkCase(c Case) fw.Outcome {
 	var refuse error
 	var inherited *string
 	nrestr := 0
-	for _, l := range c.Chain {
+	for i, l := range c.Chain {
 		if refuse != nil {
 			break
 		}
 		var err error
-		sp, err = applyLevel(sp, l, c.Base, c.FD)
+		sp, err = applyLevel(sp, l, c.Base, c.FD, i > 0)
 		if err != nil {
 			refuse = err
 			break
@@ -550,7 +562,7 @@ func checkCase(c Case) fw.Outcome {
 	var leaves []leafModel
 	if refuse == nil {
 		for _, l := range c.Leaves {
-			lsp, err := applyLevel(sp, l, c.Base, c.FD)
+			lsp, err := applyLevel(sp, l, c.Base, c.FD, len(c.Chain) > 0)
 			if err != nil {
 				refuse = err
 				break
